@@ -264,6 +264,9 @@ class SelWithSubregions(Contract):
         st.assume, st.kind, st.axis = assume, cfg['kind'], ax
         return st
 
+    def use_contracts(s):
+        return _USE_SEL
+
     def frame(s, E, st):
         return [('self', st.self)]
 
@@ -308,12 +311,13 @@ class SelWithSubregions(Contract):
         return out
 
 
-# SelWithSubregions is not registered: with Mesh.__init__ and the setter inlined its obligations did not finish within
-# the quick budget (15 min for the first configuration); clipping of subregions in selections stays with the bounded tier
-CONTRACTS = [SubregionsSetter(), IsAligned(), GetitemName()]
+# Mesh.sel with subregions goes through the Mesh.__init__ contract (its subregion clause = the setter contract proved above,
+# applicable where the subregions handed over are syntactically on the lattice of the new mesh)
+CONTRACTS = [SubregionsSetter(), IsAligned(), GetitemName(), SelWithSubregions()]
 _BY_NAME = {c.name: c for c in CONTRACTS}
 from .shared import Point2Index as _P2I
 _USE = [RegionInit(), _P2I()]
+_USE_SEL = [RegionInit(), _P2I(), MeshInit()]
 
 
 def contract(name):
@@ -331,8 +335,13 @@ TRUSTED = ['contract of Region.__init__ (discharged under C01)',
 ASSUMPTIONS = ['setter pre-states: the comparison tolerance is at most 1/1000 of a cell (tf*(|pmin|+|pmax|+min edge) <= min(cell)/1000)',
                'tolerance_factor fixed to the default 1e-12 in the mesh pre-states of C14',
                'rejection scenarios are stated 1%..99% of a cell away from the lattice (the tolerance band in between is left unspecified)']
-BOUNDED_IN = ['number of subregions in the pre-state / in the assigned dict: <= 2 (each is a symbolic box)']
+BOUNDED_IN = ['number of subregions in the pre-state / in the assigned dict: <= 2 (each is a symbolic box); Mesh.sel with subregions: 1 symbolic subregion']
 MUTANTS = {
+    'sel_subregion_not_clipped': {'module': 'mesh', 'contract': 'Mesh.sel[subregions]', 'config': {'ndim': 1, 'axis': 0, 'kind': 'range'},
+                                  'old': 'sub_p_1[dim_index] = max(min_val, sub_reg_p_min)', 'new': 'sub_p_1[dim_index] = sub_reg_p_min'},
+    'sel_keeps_subregions_beside_the_plane': {'module': 'mesh', 'contract': 'Mesh.sel[subregions]', 'config': {'ndim': 2, 'axis': 0, 'kind': 'value'},
+                                              'old': '                        selection > subreg.pmax[dim_index]\n                        or selection < subreg.pmin[dim_index]',
+                                              'new': '                        selection > subreg.pmax[dim_index] + self.cell[dim_index]\n                        or selection < subreg.pmin[dim_index]'},
     'setter_skips_alignment': {'module': 'mesh', 'contract': 'Mesh.subregions.setter', 'config': {'ndim': 2, 'scen': 'frac_offset'},
                                'old': 'if not self.is_aligned(self.__class__(region=value, cell=self.cell)):', 'new': 'if False:'},
     'setter_keeps_foreign_units': {'module': 'mesh', 'contract': 'Mesh.subregions.setter', 'config': {'ndim': 2, 'scen': 'lattice'},
